@@ -528,7 +528,7 @@ fn scenarios(thorough: bool) -> Vec<(Scenario, Vec<usize>)> {
     let mut v = Vec::new();
     let mut add = |workers: usize, errors: u64, bch: u64, iz: bool, rounds: usize, script: usize, inject: Inject, bounds: Vec<usize>, extra_budget: usize| {
         let s = Scenario {
-            id: format!("W{}-E{}-bch{}-{}-R{}-S{}-{:?}", workers, errors, bch, if iz { "int0" } else { "int1h" }, rounds, script, inject),
+            id: format!("W{}-E{}-bch{}-{}-R{}-S{}-{:?}{}", workers, errors, bch, if iz { "int0" } else { "int1h" }, rounds, script, inject, if extra_budget > 0 { format!("-slack{}", extra_budget) } else { String::new() }),
             workers,
             errors,
             bch,
@@ -562,57 +562,61 @@ fn scenarios(thorough: bool) -> Vec<(Scenario, Vec<usize>)> {
         let s = Scenario { budget: need + extra_budget, ..s };
         v.push((s, bounds));
     };
+    let t = thorough;
     for script in 0..4 {
         for &bch in &[0u64, 1] {
             for &iz in &[true, false] {
-                // one-round scenarios: deep
-                // one worker, one point: ALL schedules (no preemption bound)
+                // one worker, one point: ALL schedules (the heaviest combination only in the thorough tier)
                 add(1, 1, bch, iz, 1, script, Inject::None, vec![UNBOUNDED], 0);
-                add(1, 2, bch, iz, 1, script, Inject::None, vec![if !thorough && bch == 1 && iz { 4 } else { UNBOUNDED }], 0);
-                if script < 2 || thorough {
-                    let b = if thorough && script == 0 { 4 } else if thorough || script == 0 { 3 } else { 2 };
-                    // thorough: two workers, one required error, script 0: ALL schedules
-                    let b1 = if thorough && script == 0 { UNBOUNDED } else { b };
-                    add(2, 1, bch, iz, 1, script, Inject::None, vec![b1], 0);
-                    add(2, 2, bch, iz, 1, script, Inject::None, vec![b], 0);
+                add(1, 2, bch, iz, 1, script, Inject::None, vec![if !t && bch == 1 && iz { 4 } else { UNBOUNDED }], 0);
+                // two workers, one point
+                if script == 0 {
+                    // thorough: ALL schedules for E=1 without outer code (with it the space exceeds 10^8); bound 4 otherwise
+                    add(2, 1, bch, iz, 1, script, Inject::None, vec![if t && bch == 0 { UNBOUNDED } else if t { 4 } else { 3 }], 0);
+                    add(2, 2, bch, iz, 1, script, Inject::None, vec![if t { 4 } else { 3 }], 0);
+                } else if script == 1 || t {
+                    add(2, 1, bch, iz, 1, script, Inject::None, vec![if t { 3 } else { 2 }], 0);
+                    add(2, 2, bch, iz, 1, script, Inject::None, vec![if t { 3 } else { 2 }], 0);
                 } else {
                     add(2, 2, bch, iz, 1, script, Inject::None, vec![2], 0);
                 }
-                if (script == 0 && iz) || thorough {
-                    let b = if thorough && script == 0 && iz && bch == 0 { 3 } else { 2 };
-                    add(3, 1, bch, iz, 1, script, Inject::None, vec![b], 0);
-                    add(3, 2, bch, iz, 1, script, Inject::None, vec![if thorough || bch == 0 { 2 } else { 1 }], 0);
-                } else if script == 1 {
-                    add(3, 2, bch, iz, 1, script, Inject::None, vec![1], 0);
+                // three workers, one point
+                if script == 0 && iz {
+                    add(3, 1, bch, iz, 1, script, Inject::None, vec![if t && bch == 0 { 3 } else { 2 }], 0);
+                    add(3, 2, bch, iz, 1, script, Inject::None, vec![if t || bch == 0 { 2 } else { 1 }], 0);
+                } else if script == 0 && t {
+                    add(3, 1, bch, iz, 1, script, Inject::None, vec![2], 0);
+                    add(3, 2, bch, iz, 1, script, Inject::None, vec![2], 0);
+                } else if script == 1 || (t && bch == 0 && iz) {
+                    add(3, 2, bch, iz, 1, script, Inject::None, vec![if t && bch == 0 && iz { 2 } else { 1 }], 0);
                 }
             }
         }
-        // two-round scenarios: a second point must start clean
+        // two points: the second one must start clean
         add(1, 2, 1, true, 2, script, Inject::None, vec![3], 0);
-        add(2, 1, 0, true, 2, script, Inject::None, if thorough { vec![3] } else { vec![2] }, 0);
-        if thorough {
+        add(2, 1, 0, true, 2, script, Inject::None, vec![if t { 3 } else { 2 }], 0);
+        if t {
             add(2, 2, 1, false, 2, script, Inject::None, vec![2], 0);
-            if script == 0 {
-                add(3, 1, 0, true, 2, script, Inject::None, vec![1], 0);
-                add(2, 2, 0, true, 1, script, Inject::None, vec![3], 1);
-            }
         }
     }
-    add(3, 1, 0, true, 2, 0, Inject::None, if thorough { vec![2] } else { vec![1] }, 0);
+    add(3, 1, 0, true, 2, 0, Inject::None, vec![1], 0);
+    if t {
+        add(2, 2, 0, true, 1, 0, Inject::None, vec![3], 1);
+    }
     // zero required frame errors: the point ends without consuming a frame (ratios are 0/0)
     for w in 1..=3 {
         add(w, 0, 0, true, 1, 0, Inject::None, vec![if w == 3 { 2 } else { 3 }], 1);
-        add(w, 0, 1, false, 2, 1, Inject::None, vec![if w == 3 && !thorough { 1 } else { 2 }], 1);
+        add(w, 0, 1, false, 2, 1, Inject::None, vec![if w == 3 && !t { 1 } else { 2 }], 1);
     }
     // four workers
-    add(4, 1, 0, true, 1, 0, Inject::None, vec![if thorough { 2 } else { 1 }], 0);
+    add(4, 1, 0, true, 1, 0, Inject::None, vec![if t { 2 } else { 1 }], 0);
     add(4, 2, 1, false, 1, 1, Inject::None, vec![1], 0);
     // the same scenarios with endpoint drops as scheduling points of their own: outcomes must be
     // judged correct there too (validates the default granularity, see DESIGN.md 10.3)
     let dp: Vec<(Scenario, Vec<usize>)> = v
         .iter()
         .filter(|(s, _)| s.workers == 2 && s.rounds == 1 && s.script == 0 && s.interval_zero)
-        .map(|(s, _)| (Scenario { id: format!("{}-dp", s.id), drop_points: true, ..s.clone() }, vec![if thorough { 3 } else { 2 }]))
+        .map(|(s, _)| (Scenario { id: format!("{}-dp", s.id), drop_points: true, ..s.clone() }, vec![if t { 3 } else { 2 }]))
         .collect();
     v.extend(dp);
     let mut add = |workers: usize, errors: u64, bch: u64, iz: bool, rounds: usize, script: usize, inject: Inject, bounds: Vec<usize>, dp: bool| {
@@ -633,10 +637,9 @@ fn scenarios(thorough: bool) -> Vec<(Scenario, Vec<usize>)> {
     for inj in [Inject::StageErr, Inject::InterleaverPanic, Inject::Psk8Panic, Inject::DecoderPanic] {
         for w in 1..=3 {
             add(w, 2, 0, true, 1, 0, inj, vec![2], true);
-            let deep = if thorough { 4 } else { 3 };
-            add(w, 2, 0, true, 1, 0, inj, vec![if w == 3 { deep - 1 } else { deep }], false);
+            add(w, 2, 0, true, 1, 0, inj, vec![if w == 3 { 2 } else if t { 4 } else { 3 }], false);
             if w <= 2 {
-                add(w, 1, 1, false, 2, 1, inj, vec![if thorough { 3 } else { 2 }], false);
+                add(w, 1, 1, false, 2, 1, inj, vec![if t { 3 } else { 2 }], false);
             }
         }
     }
@@ -659,6 +662,8 @@ pub fn worker(arg: &str) -> i32 {
     // pinned to one CPU: baton hand-offs then never cross cores.
     if let Some(cpu) = v["cpu"].as_u64() {
         unsafe {
+            // keep the machine responsive: the explorer saturates every core
+            libc::setpriority(libc::PRIO_PROCESS, 0, 10);
             let mut set: libc::cpu_set_t = std::mem::zeroed();
             libc::CPU_ZERO(&mut set);
             libc::CPU_SET(cpu as usize, &mut set);
@@ -690,7 +695,8 @@ struct Job {
     nshards: usize,
 }
 
-fn run_jobs(jobs: Vec<Job>, budget_s: f64) -> Vec<Value> {
+fn run_jobs(jobs: Vec<Job>, budget_s: f64, global_s: f64) -> Vec<Value> {
+    let t_start = std::time::Instant::now();
     use std::process::{Command, Stdio};
     let exe = std::env::current_exe().unwrap_or_else(|_| machinery("cannot find own executable"));
     let queue = Mutex::new(jobs.into_iter().rev().collect::<Vec<_>>());
@@ -702,7 +708,13 @@ fn run_jobs(jobs: Vec<Job>, budget_s: f64) -> Vec<Value> {
             sc.spawn(move || loop {
                 let job = queue.lock().unwrap().pop();
                 let Some(j) = job else { break };
-                let arg = json!({"scenario": j.scenario, "bound": j.bound, "shard": j.shard, "nshards": j.nshards, "budget_s": budget_s, "cpu": cpu}).to_string();
+                // global wall-clock cap of the whole check: what does not fit is reported as not completed
+                let left = global_s - t_start.elapsed().as_secs_f64();
+                if left < 1.0 {
+                    results.lock().unwrap().push(json!({"scenario": j.scenario, "bound": j.bound, "shard": j.shard, "executions": 0, "decisions": 0, "max_decisions": 0, "arrival_orders": [], "outcomes": [], "deadlocks": 0, "complete": false, "determinism_checks": 0, "evals": 0, "nontrivial": 0, "viol_total": 0, "viols": [], "samples": [], "acc_outcomes": []}));
+                    continue;
+                }
+                let arg = json!({"scenario": j.scenario, "bound": j.bound, "shard": j.shard, "nshards": j.nshards, "budget_s": budget_s.min(left), "cpu": cpu}).to_string();
                 let out = Command::new(exe).arg("C13").arg("--worker").arg(&arg).stdin(Stdio::null()).stderr(Stdio::inherit()).output();
                 match out {
                     Ok(o) if o.status.success() => {
@@ -752,7 +764,7 @@ pub fn run(run: &Run) -> i32 {
         for (scn, bounds) in &list {
             let b = *bounds.last().unwrap();
             let nshards = match (scn.workers, b, scn.rounds) {
-                (2, UNBOUNDED, _) => 128,
+                (2, UNBOUNDED, _) => 256,
                 (1, UNBOUNDED, _) => 4,
                 (4, b, _) if b >= 2 => 64,
                 (4, _, _) => 16,
@@ -770,7 +782,9 @@ pub fn run(run: &Run) -> i32 {
             }
         }
         extra.insert("worker_processes_jobs".into(), json!(jobs.len()));
-        let results = run_jobs(jobs, budget);
+        // cheap jobs first, so that a cap only ever cuts the deepest scenarios
+        jobs.sort_by_key(|j| j.nshards);
+        let results = run_jobs(jobs, budget, if run.thorough() { 1500.0 } else { 110.0 });
         let mut per: std::collections::BTreeMap<String, (u64, u64, usize, HashSet<u64>, HashSet<u64>, u64, bool, u64, usize)> = Default::default();
         for r in &results {
             let id = r["scenario"].as_str().unwrap().to_string();
@@ -813,7 +827,11 @@ pub fn run(run: &Run) -> i32 {
             }));
         }
         if per.len() != list.len() {
-            machinery("C13: some scenario produced no result");
+            let ids: Vec<&String> = list.iter().map(|(s, _)| &s.id).collect();
+            let mut sorted = ids.clone();
+            sorted.sort();
+            sorted.dedup();
+            machinery(&format!("C13: {} scenarios planned ({} distinct ids), {} produced results", list.len(), sorted.len(), per.len()));
         }
         extra.insert("scenarios".into(), json!(rows.len()));
         extra.insert("per_scenario".into(), Value::Array(rows));
